@@ -20,7 +20,7 @@ META = {
         'technique': 'Verus contracts on the real encoders (bytes written == grammar function enc(x)) and decoders (requires-free; for all x and tails: rest == enc(x) ++ tail ==> Ok(x), rest\' == tail) of the core data types, with induction lemmas on the byte codec; Verus contracts on the real 230-arm instruction encoder / decoder against a grammar function generated from the code on every run (decoder: accepted bytes == enc_instr(result) ++ rest); bounded stand-in (real parser / serialiser / assembler) for the AST containers, libraries and recompilation',
         'design_ref': '§7 C19/C10, §11',
         'level_text': 'Deductive proof for all values: StackInputs and StackOutputs decode(encode(x)) == x, consuming exactly the bytes written (any trailing bytes untouched); encoders follow the documented grammar; HashFunction tags map back. Instruction codec, all 230 variants and every payload: the encoder writes enc_instr(x), and every byte string the decoder accepts is enc_instr(of the instruction it returns) followed by the unread rest - a decoder arm that returns another variant, reads another width or order cannot verify. Bounded (1626 cases): parser-produced program / module ASTs for every instruction form and container shape, MaslLibrary files and the core data types round-trip to equal objects, identical bytes and the same MAST root.',
-        'level_note': 'Not proved deductively: decoder completeness on the instruction codec (accepts every enc_instr(x)), the AST container / library codecs (string / Vec / BTreeMap code) and recompilation - covered by the bounded stand-in ast_roundtrip only (labelled bounded). Sub-codecs of instruction payloads (Felt, ProcedureId, RpoDigest, AdviceInjectorNode, DebugOptions) are assumed.',
+        'level_note': 'Not proved deductively: decoder completeness on the instruction codec (accepts every enc_instr(x)), the AST container / library codecs (string / Vec / BTreeMap code) and recompilation - covered by the bounded stand-ins ast_roundtrip and ast_shapes only (labelled bounded). Sub-codecs of instruction payloads (Felt, ProcedureId, RpoDigest, AdviceInjectorNode, DebugOptions) are assumed.',
     },
     'C11': {
         'engine': 'E1 verus-extract',
